@@ -133,8 +133,65 @@ var (
 		"// go:redirect", "//\tindented example code"}
 	c20MentionPrefix  = []string{"// see ", "// was: ", "//  ", "// NOTE(x): "}
 	c20DirectiveLines = []string{"//go:nosplit", "//go:noinline", "//go:linkname local runtime.remote", "//go:nowritebarrier",
-		"//go:norace", "//go:noescape", "//go:nosplit ", "//go:generate echo //go:redirect"}
+		"//go:norace", "//go:noescape", "//go:nosplit ", "//go:generate echo //go:redirect",
+		// line directives as generated code carries them (effective at column 1 only): they change
+		// the file name and line positions are reported with, never the package a file belongs to
+		"//line ../../tools/grammar/input.y:410000", "//line /usr/src/gen/tables.go:700000", "//line renamed.go:100000", "/*line sub/dir/other.go:300000:1*/"}
 )
+
+// c20PlainDirectives is the number of entries of c20DirectiveLines that are not line directives.
+// A line directive renumbers the lines that follow it, and go/parser decides by line numbers
+// whether a comment is a declaration's doc comment; so line directives are generated in
+// free-standing comments only (file headers, detached groups, comment elements), with line
+// numbers beyond any generated file, where they cannot change which comments are doc comments.
+const c20PlainDirectives = 8
+
+// c20LimitLineDirectives keeps at most one line directive per file, in a free-standing comment
+// (a second one could renumber lines downwards and so join comments that a blank line separates).
+func c20LimitLineDirectives(f *c20File) {
+	seen := false
+	free := func(ls []c20Line) {
+		for i := range ls {
+			if ls[i].K != "directive" {
+				continue
+			}
+			v := ls[i].V
+			if v < 0 {
+				v = -v
+			}
+			if v%len(c20DirectiveLines) >= c20PlainDirectives {
+				if seen {
+					ls[i].V = v % len(c20DirectiveLines) % c20PlainDirectives
+				}
+				seen = true
+			}
+		}
+	}
+	free(f.Header)
+	for i := range f.Items {
+		it := &f.Items[i]
+		free(it.Detached)
+		if it.Kind == "comment" {
+			free(it.Doc)
+		} else {
+			c20NoLineDirectives(it.Doc)
+		}
+		c20NoLineDirectives(it.Inner)
+	}
+}
+
+func c20NoLineDirectives(ls []c20Line) []c20Line {
+	for i := range ls {
+		if ls[i].K == "directive" {
+			v := ls[i].V
+			if v < 0 {
+				v = -v
+			}
+			ls[i].V = v % len(c20DirectiveLines) % c20PlainDirectives
+		}
+	}
+	return ls
+}
 
 func c20Pick(list []string, v int) string {
 	if v < 0 {
@@ -1165,6 +1222,7 @@ func c20GenFile(t *rapid.T, dir string, names, idents map[string]bool) c20File {
 		f.Items = append(f.Items, it)
 	}
 	f.NoNL = rapid.IntRange(0, 9).Draw(t, "nonl") == 0
+	c20LimitLineDirectives(&f)
 	return f
 }
 
